@@ -983,6 +983,55 @@ func genMoveCases(rng *rand.Rand, mode string) []*gcCase {
 	return out
 }
 
+// genDense: a dense node — the files of several hundred RUNNING containers sort first (first allocated-IP directory,
+// first gc dirs), the dead containers' files lie behind them and in the later directories.  "Eventually all of it"
+// has no size bound: one round still has to collect every dead container's file.
+func genDense(rng *rand.Rand, mode string, nRunning int) *gcCase {
+	cri := mode == "cri"
+	running, deadB := fk.Behaviour("running"), []fk.Behaviour{"exited", "dead", "notfound"}
+	if cri {
+		running, deadB = "ready", []fk.Behaviour{"notfound", "nr-podgone", "nr-term"}
+	}
+	c := &gcCase{Mode: mode, Containers: map[string]fk.Behaviour{}}
+	var run, dead []string
+	for i := 0; i < nRunning; i++ {
+		id := fmt.Sprintf("a%04d%s", i, genID(rng)[:6])
+		run = append(run, id)
+		c.Containers[id] = running
+	}
+	for i := 0; i < 6; i++ {
+		id := fmt.Sprintf("z%02d%s", i, genID(rng)[:6])
+		dead = append(dead, id)
+		c.Containers[id] = deadB[rng.Intn(len(deadB))]
+	}
+	ip0, ip1 := dirSpec{}, dirSpec{}
+	for i, id := range run {
+		ip0.E = append(ip0.E, entry{N: fmt.Sprintf("10.0.%d.%d", i/250, i%250+1), K: "f", C: id + "\neth0"})
+	}
+	ip0.E = append(ip0.E, entry{N: "10.9.9.9", K: "f", C: dead[0] + "\neth0"}) // behind all running ones in the same directory
+	for i, id := range dead {
+		ip1.E = append(ip1.E, entry{N: fmt.Sprintf("10.1.0.%d", i+1), K: "f", C: genContent(rng, id)})
+	}
+	ip1.E = append(ip1.E, entry{N: "10.1.0.200", K: "f", C: run[0]})
+	c.IPDirs = []dirSpec{ip0, ip1}
+	g0, g1, g2 := dirSpec{}, dirSpec{}, dirSpec{}
+	for i, id := range run {
+		g0.E = append(g0.E, entry{N: id, K: "f", C: `{"galaxy-flannel":{}}`})
+		if i%2 == 0 {
+			g1.E = append(g1.E, entry{N: id, K: "f", C: "{}"})
+		}
+	}
+	for i, id := range dead {
+		g1.E = append(g1.E, entry{N: id, K: "f", C: "{}"})
+		if i%2 == 0 {
+			g2.E = append(g2.E, entry{N: id, K: "f", C: `[{"hostPort":80}]`})
+		}
+	}
+	g0.E = append(g0.E, entry{N: dead[1], K: "f", C: "{}"})
+	c.GCDirs = []dirSpec{g0, g1, g2}
+	return c
+}
+
 func snapshot(dirs []string) string {
 	var parts []string
 	for _, d := range dirs {
@@ -1187,6 +1236,17 @@ func run(e *hx.Env) *hx.Report {
 		v.runCase("case " + string(b))
 	}
 	v.flush()
+	// a dense node: hundreds of running containers' files in front of the dead ones (no bound on the size of a round)
+	for i, n := 0, e.N(1, 6); i < n; i++ {
+		mode := "docker"
+		if i%2 == 1 && v.criIf != nil {
+			mode = "cri"
+		}
+		b, _ := json.Marshal(genDense(rng, mode, 260+rng.Intn(60)))
+		v.r.Hit("stream:dense-node:" + mode)
+		v.runCase("case " + string(b))
+		v.flush()
+	}
 	// the environment moving during a round: every inspect request k of a pass x a handful of moves
 	for i, n := 0, e.N(6, 120); i < n; i++ {
 		mode := "docker"
